@@ -774,18 +774,42 @@ func (fn *Func) inlinePredicateCall(call *ast.CallExpr) ast.Expr {
 		return nil
 	}
 	cf := fn.Prog.FuncOf[callee]
-	if cf == nil || cf.Body == nil || len(cf.Body.List) != 1 || cf.Decl == nil {
+	if cf == nil || cf.Body == nil || len(cf.Body.List) == 0 || len(cf.Body.List) > 4 || cf.Decl == nil {
 		return nil
 	}
-	ret, ok := cf.Body.List[0].(*ast.ReturnStmt)
+	ret, ok := cf.Body.List[len(cf.Body.List)-1].(*ast.ReturnStmt)
 	if !ok || len(ret.Results) != 1 {
 		return nil
 	}
 	sig := callee.Type().(*types.Signature)
-	if sig.Variadic() || sig.Params().Len() != len(call.Args) {
+	if sig.Variadic() || sig.Params().Len() != len(call.Args) || sig.Results().Len() != 1 {
+		return nil
+	}
+	if b, isB := sig.Results().At(0).Type().Underlying().(*types.Basic); len(cf.Body.List) > 1 && (!isB || b.Kind() != types.Bool) {
 		return nil
 	}
 	body := ret.Results[0]
+	// guard clauses in front of the final return: `if C { return true }` reads C || rest,
+	// `if C { return false }` reads !C && rest
+	for i := len(cf.Body.List) - 2; i >= 0; i-- {
+		is, ok := cf.Body.List[i].(*ast.IfStmt)
+		if !ok || is.Init != nil || is.Else != nil || len(is.Body.List) != 1 {
+			return nil
+		}
+		r0, ok := is.Body.List[0].(*ast.ReturnStmt)
+		if !ok || len(r0.Results) != 1 {
+			return nil
+		}
+		id, ok := ast.Unparen(r0.Results[0]).(*ast.Ident)
+		if !ok || (id.Name != "true" && id.Name != "false") {
+			return nil
+		}
+		if id.Name == "true" {
+			body = &ast.BinaryExpr{X: &ast.ParenExpr{X: is.Cond}, Op: token.LOR, Y: &ast.ParenExpr{X: body}}
+		} else {
+			body = &ast.BinaryExpr{X: &ast.UnaryExpr{Op: token.NOT, X: &ast.ParenExpr{X: is.Cond}}, Op: token.LAND, Y: &ast.ParenExpr{X: body}}
+		}
+	}
 	if cf.Decl.Recv != nil {
 		// a one-line predicate method: the receiver reads as the expression it is called on
 		sel, isSel := ast.Unparen(call.Fun).(*ast.SelectorExpr)
